@@ -214,7 +214,7 @@ def R3_counts_and_readers(ctx):
         if not flag:
             continue
         v = agg_payload(r.ret)
-        okc = v[0] == "call" and v[1].endswith("Iterator::count") and bool(calls_in(v, "lines"))
+        okc = v[0] == "call" and itm(v[1], "count") and bool(calls_in(v, "lines"))
         gzd = bool([x for x in calls_in(v) if "GzDecoder" in x[1]])
         seen[flag[0]] = (okc, gzd)
     ctx.check(seen.get(True) == (True, True), "line_count:gzip", "gzip branch is not lines().count() over the decoded stream", lcb.where(), detail="BufReader(GzDecoder(file)).lines().count()")
@@ -240,7 +240,7 @@ def R3_counts_and_readers(ctx):
         item = nosite(deep_strip(tm.call_term(nx[0].term, nx[0].bb)))
         recv = deep_strip(tm.operand(nx[0].args[0], nx[0].bb))
         names = [x[1] for x in calls_in(recv)]
-        okp = any(n.endswith("Iterator::enumerate") for n in names) and any(n.endswith("BufRead::lines") for n in names) and any("GzDecoder" in n for n in names) and not any(re.search(r"Iterator::(take|skip|filter|step_by|filter_map|skip_while)$", n) for n in names)
+        okp = any(itm(n, "enumerate") for n in names) and any(n.endswith("BufRead::lines") for n in names) and any("GzDecoder" in n for n in names) and not any(re.search(r"Iterator>?::(take|skip|filter|step_by|filter_map|skip_while)$", n) for n in names)
         ctx.check(okp, "read_gzip:all-rows", "rows are not enumerate(lines()) of the decoded stream without filtering", rg.where(), detail="lines().enumerate()")
         skip = nx[0].bb in rg.reach_from_succs(nx[0].bb, removed_blocks=[push[0].bb])
         ctx.check(not skip, "read_gzip:no-skipped-row", "a loop turn can return to the next row without pushing a result (a skipped row shifts all later table entries)", push[0].where(), detail="push on every turn")
@@ -259,13 +259,13 @@ def R3_counts_and_readers(ctx):
     rb = F.need(FS + "read_utils::read_regular")
     rrt = nosite(deep_strip(Terms(rb).return_term()))
     names = [x[1] for x in calls_in(rrt)]
-    okr = any(n.endswith("Iterator::enumerate") for n in names) and any(n.endswith("BufRead::lines") for n in names) and any(n.endswith("Iterator::map") for n in names) and not any("GzDecoder" in n for n in names) and not any(re.search(r"Iterator::(take|skip|filter|step_by|filter_map|skip_while)$", n) for n in names)
+    okr = any(itm(n, "enumerate") for n in names) and any(n.endswith("BufRead::lines") for n in names) and any(itm(n, "map") for n in names) and not any("GzDecoder" in n for n in names) and not any(re.search(r"Iterator>?::(take|skip|filter|step_by|filter_map|skip_while)$", n) for n in names)
     ctx.check(okr, "read_regular:all-rows", "plain reader is not lines().enumerate().map(op).collect()", rb.where(), detail="lines().enumerate().map().collect()")
     # from_csv: collect everything
     fc = F.need(FS + "read_utils::from_csv")
     frt = nosite(deep_strip(Terms(fc).return_term()))
     names = [x[1] for x in calls_in(frt)]
-    okf = any(n == FS + "read_utils::iterator_from_csv" for n in names) and not any(re.search(r"Iterator::(take|skip|filter|step_by|filter_map|skip_while)$", n) for n in names)
+    okf = any(n == FS + "read_utils::iterator_from_csv" for n in names) and not any(re.search(r"Iterator>?::(take|skip|filter|step_by|filter_map|skip_while)$", n) for n in names)
     ctx.check(okf, "from_csv:all-rows", "from_csv does not collect every row of iterator_from_csv", fc.where())
 
 
